@@ -1,14 +1,18 @@
 """Run every checker against the kept behaviour-preserving refactors (by hand; not a registered check).
 
 /verif/refactors/<Rxx>/refactor<k>.diff were produced by independent sub-agents that saw only property texts and a scratch worktree
-(each verified by its author: own check script, focused tests, 1378/1378 stable baseline).  For each diff: /repo must be clean; the
-diff is applied with `git -C /repo apply`, all twenty quick checks run (no evidence written), and the diff is undone
-(`git -C /repo checkout -- .`).  Any exit code != 0 is a false alarm (1) or a refusal (2).  Writes /verif/refactors/results.json.
-usage: /venv/bin/python tools/run_refactors.py [Rxx ...]
+(each verified by its author: own check script, focused tests, 1378/1378 stable baseline).  This tool creates a few scratch git
+worktrees of /repo's HEAD under a temporary directory, applies each diff there, runs all twenty quick checks with `--repo <worktree>`
+(no evidence written), and removes the worktrees again.  /repo's working tree is never touched.  Any exit code != 0 is a false
+alarm (1) or a refusal (2).  Writes /verif/refactors/results.json.
+usage: /venv/bin/python tools/run_refactors.py [Rxx ...] [-j N]
 """
 import json
 import subprocess
 import sys
+import tempfile
+import threading
+from concurrent.futures import ThreadPoolExecutor
 from pathlib import Path
 
 V = Path("/verif")
@@ -19,30 +23,57 @@ def sh(cmd, **kw):
     return subprocess.run(cmd, capture_output=True, text=True, **kw)
 
 
-assert sh(["git", "-C", "/repo", "status", "--porcelain"]).stdout.strip() == "", "/repo is not clean"
-sel = sys.argv[1:]
-res_path = V / "refactors" / "results.json"
-results = json.loads(res_path.read_text()) if res_path.exists() else {}
-for d in sorted((V / "refactors").glob("R*/refactor*.diff")):
-    rid = f"{d.parent.name}/{d.stem}"
-    if sel and not any(rid.startswith(s) for s in sel):
-        continue
-    ap = sh(["git", "-C", "/repo", "apply", str(d)])
-    row = {"applies": ap.returncode == 0, "alarms": {}}
-    if ap.returncode == 0:
-        try:
+args = sys.argv[1:]
+jobs = 5
+if "-j" in args:
+    jobs = int(args[args.index("-j") + 1])
+    del args[args.index("-j"): args.index("-j") + 2]
+sel = args
+head = sh(["git", "-C", "/repo", "rev-parse", "HEAD"]).stdout.strip()
+tmp = Path(tempfile.mkdtemp(prefix="mxverif-refactors-"))
+pool = []
+for i in range(jobs):
+    wt = tmp / f"w{i}"
+    r = sh(["git", "-C", "/repo", "worktree", "add", "-q", "--detach", str(wt), head])
+    assert r.returncode == 0, r.stderr
+    pool.append(wt)
+lock = threading.Lock()
+
+
+def one(d: Path):
+    with lock:
+        wt = pool.pop()
+    try:
+        sh(["git", "-C", str(wt), "checkout", "-q", "--", "."])
+        sh(["git", "-C", str(wt), "clean", "-fdq", "src"])
+        ap = sh(["git", "-C", str(wt), "apply", str(d)])
+        row = {"applies": ap.returncode == 0, "alarms": {}, "files": sorted({l[6:].strip() for l in d.read_text().splitlines() if l.startswith("+++ b/")})}
+        if ap.returncode == 0:
             for c in ALL:
-                v = sh(["./vcheck", c, "--no-evidence", "--no-selftest"], cwd=str(V))
+                v = sh(["./vcheck", c, "--repo", str(wt), "--no-evidence", "--no-selftest"], cwd=str(V))
                 if v.returncode != 0:
                     row["alarms"][c] = {"exit": v.returncode, "reports": [l.strip()[:200] for l in v.stdout.splitlines() if l.startswith(("  [", "ANALYSIS-ERROR"))][:4]}
-        finally:
-            sh(["git", "-C", "/repo", "checkout", "--", "."])
-            sh(["git", "-C", "/repo", "clean", "-fdq", "src"])
-    else:
-        row["note"] = ap.stderr.strip()[:200]
-    files = sorted({l[6:].strip() for l in d.read_text().splitlines() if l.startswith("+++ b/")})
-    row["files"] = files
-    results[rid] = row
-    print(f"{rid:24s} applies={row['applies']} alarms={ {k: v['exit'] for k, v in row['alarms'].items()} }")
-res_path.write_text(json.dumps(results, indent=1, sort_keys=True))
-assert sh(["git", "-C", "/repo", "status", "--porcelain"]).stdout.strip() == "", "/repo left dirty!"
+        else:
+            row["note"] = ap.stderr.strip()[:200]
+        return f"{d.parent.name}/{d.stem}", row
+    finally:
+        sh(["git", "-C", str(wt), "checkout", "-q", "--", "."])
+        sh(["git", "-C", str(wt), "clean", "-fdq", "src"])
+        with lock:
+            pool.append(wt)
+
+
+try:
+    diffs = [d for d in sorted((V / "refactors").glob("R*/refactor*.diff")) if not sel or any(d.parent.name == s for s in sel)]
+    res_path = V / "refactors" / "results.json"
+    results = json.loads(res_path.read_text()) if res_path.exists() else {}
+    with ThreadPoolExecutor(jobs) as ex:
+        for rid, row in ex.map(one, diffs):
+            results[rid] = row
+            print(f"{rid:24s} applies={row['applies']} alarms={ {k: v['exit'] for k, v in row['alarms'].items()} }")
+    results["_evaluated_at_repo_commit"] = head
+    res_path.write_text(json.dumps(results, indent=1, sort_keys=True))
+finally:
+    for wt in list(tmp.glob("w*")):
+        sh(["git", "-C", "/repo", "worktree", "remove", "--force", str(wt)])
+    sh(["rm", "-rf", str(tmp)])
